@@ -29,6 +29,7 @@ func runC08(c *eng.Ctx) {
 	c.Rule("R08.1", "K1")
 	ruleKeylessMessagesAreNotTracked(c)
 	ruleKeyScanCoversEverySegment(c)
+	ruleRetentionLooksUpThisMessagesKey(c)
 	ruleNegativeSettingsTakeTheDefault(c)
 	c.Rule("R08.9", "K3")
 	ruleCompactedSegmentsArePublishedAsTheyAreReplaced(c)
